@@ -178,8 +178,13 @@ Record trow := {
   t_ts : Z; t_dur : Z; t_service : string; t_ptype : Z; t_payload : payload }.
 Record arow := { a_key : string; a_val : string; a_trace : string; a_span : string; a_ts : Z; a_dur : Z; a_date : Z }.
 
+(* the Date column of a tag row: MDate = time.Unix(ts/1e9, 0), then ch-go ToDate = UInt16((unix + zone offset) / 86400);
+   the zone offset is 0 here (UTC; the local-zone defect belongs to C04/C13), Go's / truncates towards zero *)
+Definition date_of (ts : Z) : Z := (Z.quot (Z.quot ts 1000000000) 86400) mod 65536.
+
 (* builder.go onSpan: ids of any other width than 16 / 8 bytes are rejected (400, the whole request fails);
-   otherwise one trace row, one tag row per key; MDate = time.Unix(ts/1e9, 0) *)
+   otherwise one trace row, one tag row per key; observed after the column-wise copy of
+   tempoInsertService.go (ProcessRequest), i.e. as the columns of the two INSERT blocks *)
 Definition id_widths_ok (tid sid : string) : bool := Nat.eqb (String.length tid) 16 && Nat.eqb (String.length sid) 8.
 Definition on_span (ptype : Z) (tid sid : string) (ts dur : Z) (parent name svc : string) (p : payload) (kv : amap)
   : option (trow * list arow) :=
@@ -187,7 +192,7 @@ Definition on_span (ptype : Z) (tid sid : string) (ts dur : Z) (parent name svc 
   ({| t_trace := tid; t_span := sid; t_parent := parent; t_name := name; t_ts := ts; t_dur := dur;
       t_service := svc; t_ptype := ptype; t_payload := p |},
    map (fun e => {| a_key := fst e; a_val := snd e; a_trace := tid; a_span := sid; a_ts := ts; a_dur := dur;
-                    a_date := Z.quot ts 1000000000 |}) kv).
+                    a_date := date_of ts |}) kv).
 
 Definition span_rows := (trow * list arow)%type.
 
@@ -726,13 +731,21 @@ Fixpoint rows_ok (i : input) (idx : N) (ps : list pushed) (rs : list trow) : boo
   end.
 Definition tag_group_ok (p : pushed) (g : list arow) : bool :=
   forallb (fun a => String.eqb (a_trace a) (p_trace p) && String.eqb (a_span a) (p_span p) && (a_ts a =? p_ts p)
-                    && (a_dur a =? p_dur p) && (a_date a =? Z.quot (p_ts p) 1000000000)) g
+                    && (a_dur a =? p_dur p) && (a_date a =? date_of (p_ts p))) g
   && perm_eqb kv_eqb (map (fun a => (a_key a, a_val a)) g) (p_tags p).
 Definition tags_ok (ps : list pushed) (tags : list arow) : bool :=
   match chunks (map (fun p => List.length (p_tags p)) ps) tags with
   | Some groups => all2 tag_group_ok ps groups
   | None => false
   end.
+(* attributes the Zipkin read path adds on its own: the endpoints' fields and service.name *)
+Fixpoint has_prefix (p s : string) : bool :=
+  match p with
+  | EmptyString => true
+  | String a p' => match s with String b s' => Ascii.eqb a b && has_prefix p' s' | EmptyString => false end
+  end.
+Definition synth_key (k : string) : bool :=
+  String.eqb k k_service || has_prefix "localEndpoint." k || has_prefix "remoteEndpoint." k.
 Definition read_ok (check_parent : bool) (p : pushed) (o : option rspan) : bool :=
   match o with
   | None => false
@@ -741,7 +754,10 @@ Definition read_ok (check_parent : bool) (p : pushed) (o : option rspan) : bool 
       && (negb check_parent || String.eqb (rs_parent r) (p_parent p))
       && String.eqb (rs_name r) (p_name p)
       && (rs_start r =? to_u64 (p_ts p)) && (rs_end r =? to_u64 (wrap64 (p_ts p + p_dur p)))
-      && (if p_ordered p then incl_b attr_eqb (p_attrs p) (rs_attrs r) else perm_eqb attr_eqb (p_attrs p) (rs_attrs r))
+      && (if p_ordered p
+          then list_eqb attr_eqb (firstn (List.length (p_attrs p)) (rs_attrs r)) (p_attrs p)
+               && forallb (fun kv => synth_key (fst kv)) (skipn (List.length (p_attrs p)) (rs_attrs r))
+          else perm_eqb attr_eqb (p_attrs p) (rs_attrs r))
   end.
 Definition parent_guards (i : input) : list bool :=
   match i with InZipkin _ es => map parent_len_ok es | InOtlp b => map (fun _ => true) (batch_spans b) end.
@@ -782,3 +798,6 @@ Definition regressions (cs : list case) : list (Z * Z) :=
 (* run-length form used by generated case files: consecutive tag rows with the same ids and times *)
 Definition tag_run (tid sid : string) (ts dur date : Z) (kv : list (string * string)) : list arow :=
   map (fun e => {| a_key := fst e; a_val := snd e; a_trace := tid; a_span := sid; a_ts := ts; a_dur := dur; a_date := date |}) kv.
+
+(* case files write a long run of one character as rep_char c n *)
+Fixpoint rep_char (c : ascii) (n : nat) : string := match n with O => EmptyString | S k => String c (rep_char c k) end.
